@@ -553,6 +553,11 @@ def run_one(ctx, h, known_keys, replay_root):
     """Run one harness: returns HResult."""
     r = HResult(h)
     t0 = time.time()
+    if os.environ.get("VERIF_TIMEOUT_CAP"):      # smoke-testing aid: caps every solver run (inconclusive, never success)
+        import copy as _cp
+        h = _cp.copy(h)
+        h.timeout = min(h.timeout, int(os.environ["VERIF_TIMEOUT_CAP"]))
+        r.h = h
     try:
         # known-finding exclusion: only findings listed in known_findings.txt are excluded
         kf_active = [k for k in h.kf if k in known_keys and k != h.probe_for]
